@@ -105,6 +105,10 @@ Inductive val :=
 | VStr (s : bytes) | VBytes (isnil : bool) (s : bytes)
 | VTime (t : timev) | VLoc (l : Z)
 | VOpq (o : opq) | VNil | VPtr (v : val)
+| VRef (a i : Z) (v : val)                   (* the address of element i of the slice with identity a (&xs[i]); v is what
+                                                it points at.  A VPtr, by contrast, is a pointer WITHOUT a known identity:
+                                                a pointer parameter the constructor dereferences, or the address of a
+                                                private copy (&x of a range variable) *)
 | VSlice (addr : Z) (l : list val)           (* addr: identity of the backing array and length, 0 for a nil slice *)
 | VWrap (w : name) (v : val)                       (* conversion to a zap-internal named type *)
 | VFld (ft : Z) (k : bytes) (i : Z) (s : bytes) (x : val)   (* a zapcore.Field *)
@@ -124,6 +128,9 @@ Inductive expr :=
 | EIfBool (e : expr)                     (* var i int64; if e { i = 1 } *)
 | EEqZ (e : expr) (z : Z)                (* e == z *)
 | EDeref (e : expr) | EAddr (e : expr)
+| EElemAddr                              (* &xs[i]: the address of the slice element itself (the receiver indexed by
+                                            the range key) -- NOT the address of a range value variable, which is a
+                                            copy ([EAddr EElem]) *)
 | EWrapAs (w : name) (e : expr)        (* w(e), w a zap-internal named slice type *)
 | EStrConv (e : expr)                    (* string(e), e of a ~string type *)
 | EAssert (t : gty) (e : expr)           (* e.(T) *)
@@ -135,12 +142,13 @@ Inductive expr :=
 | EStringOf (e : expr)                   (* e.String() *)
 | EStack.                                (* stacktrace.Take(..): environment-dependent text *)
 
-Record env := { e_var : val; e_int : Z; e_str : bytes; e_ifc : val; e_elem : val; e_stack : bytes }.
+Record env := { e_var : val; e_int : Z; e_str : bytes; e_ifc : val; e_elem : val; e_stack : bytes;
+                e_saddr : Z; e_idx : Z }.   (* identity of the slice a wrapper loop ranges over, current index *)
 
 Definition is_nilv (v : val) : option bool :=
   match v with
   | VNil => Some true
-  | VPtr _ | VOpq _ | VWrap _ _ | VLoc _ => Some false
+  | VPtr _ | VRef _ _ _ | VOpq _ | VWrap _ _ | VLoc _ => Some false
   | VSlice a _ => Some (a =? 0)
   | VBytes n _ => Some n
   (* a non-pointer, non-interface value stored in an interface is never nil *)
@@ -155,7 +163,7 @@ Definition has_dyn (t : gty) (v : val) : bool :=
   | TC64, VC64 _ _ => true
   | TTime, VTime _ => true
   | TLoc, VLoc _ => true
-  | TIface _, (VOpq _ | VWrap _ _ | VPtr _) => true
+  | TIface _, (VOpq _ | VWrap _ _ | VPtr _ | VRef _ _ _) => true
   | _, _ => false
   end.
 
@@ -177,8 +185,9 @@ Fixpoint eval (r : env) (e : expr) : option val :=
                   | Some (VI b) => if in_numb NUint32 b then Some (VF32 b) else None | _ => None end
   | EIfBool a => match eval r a with Some (VBool b) => Some (VI (if b then 1 else 0)) | _ => None end
   | EEqZ a z => match eval r a with Some (VI x) => Some (VBool (x =? z)) | _ => None end
-  | EDeref a => match eval r a with Some (VPtr v) => Some v | _ => None end   (* nil dereference: panic *)
+  | EDeref a => match eval r a with Some (VPtr v | VRef _ _ v) => Some v | _ => None end   (* nil dereference: panic *)
   | EAddr a => match eval r a with Some v => Some (VPtr v) | None => None end
+  | EElemAddr => Some (VRef (e_saddr r) (e_idx r) (e_elem r))
   | EWrapAs w a => match eval r a with Some v => Some (VWrap w v) | None => None end
   | EStrConv a => match eval r a with Some (VStr s) => Some (VStr s) | _ => None end
   | EAssert t a => match eval r a with Some v => if has_dyn t v then Some v else None | None => None end
@@ -257,7 +266,7 @@ Definition keyv (k : kexpr) (key : bytes) : bytes :=
   match k with KKey => key | KLit s => bs s | KNone => [] end.
 
 Definition env0 (v : val) (stack : bytes) : env :=
-  {| e_var := v; e_int := 0; e_str := []; e_ifc := VNil; e_elem := VNil; e_stack := stack |}.
+  {| e_var := v; e_int := 0; e_str := []; e_ifc := VNil; e_elem := VNil; e_stack := stack; e_saddr := 0; e_idx := 0 |}.
 
 Definition opt_eval (r : env) (o : option expr) (dflt : val) : option val :=
   match o with None => Some dflt | Some e => eval r e end.
@@ -302,7 +311,8 @@ Definition ctor_fuel : nat := 6.
 
 (* ---------- AddTo ---------- *)
 Definition fenv (f : field) (elem : val) : env :=
-  {| e_var := VNil; e_int := f_int f; e_str := f_str f; e_ifc := f_ifc f; e_elem := elem; e_stack := [] |}.
+  {| e_var := VNil; e_int := f_int f; e_str := f_str f; e_ifc := f_ifc f; e_elem := elem; e_stack := [];
+     e_saddr := 0; e_idx := 0 |}.
 Definition field_of_val (v : val) : option field :=
   match v with VFld t k i s x => Some {| f_ty := t; f_key := k; f_int := i; f_str := s; f_ifc := x |} | _ => None end.
 
@@ -317,15 +327,23 @@ Fixpoint oconcat {A B} (f : A -> option (list B)) (l : list A) : option (list B)
   | a :: r => match f a, oconcat f r with Some b, Some bs => Some (b ++ bs) | _, _ => None end
   end.
 
-Definition elem_env (x : val) : env :=
-  {| e_var := VNil; e_int := 0; e_str := []; e_ifc := VNil; e_elem := x; e_stack := [] |}.
+(* indexed variant: the function also sees the position of the element *)
+Fixpoint oconcati {A B} (f : Z -> A -> option (list B)) (i : Z) (l : list A) : option (list B) :=
+  match l with
+  | [] => Some []
+  | a :: r => match f i a, oconcati f (Z.succ i) r with Some b, Some bs => Some (b ++ bs) | _, _ => None end
+  end.
+
+(* iteration i of a wrapper loop over the slice with identity a, whose element i is x *)
+Definition elem_env (a i : Z) (x : val) : env :=
+  {| e_var := VNil; e_int := 0; e_str := []; e_ifc := VNil; e_elem := x; e_stack := []; e_saddr := a; e_idx := i |}.
 
 (* MarshalLogArray / MarshalLogObject of a zap-internal wrapper type, on the no-error path
    (the recording encoder never fails): what one element of the loop does, then the loop *)
-Definition loop1 (addto : field -> option (list call)) (l : loop) (x : val) : option (list call) :=
+Definition loop1 (addto : field -> option (list call)) (l : loop) (a i : Z) (x : val) : option (list call) :=
   match l with
   | LAppend m e | LAppendErr m e =>
-      match eval (elem_env x) e with Some v => Some [(m, [], v)] | None => None end
+      match eval (elem_env a i x) e with Some v => Some [(m, [], v)] | None => None end
   | LErrs k =>
       match x with
       | VNil => Some []
@@ -335,11 +353,11 @@ Definition loop1 (addto : field -> option (list call)) (l : loop) (x : val) : op
   | LFields =>
       match field_of_val x with Some f => addto f | None => None end
   end.
-Definition run_loop (addto : field -> option (list call)) (l : loop) (xs : list val) : option (list call) :=
-  oconcat (loop1 addto l) xs.
+Definition run_loop (addto : field -> option (list call)) (l : loop) (a : Z) (xs : list val) : option (list call) :=
+  oconcati (loop1 addto l a) 0 xs.
 
-Definition slice_elems (v : val) : option (list val) :=
-  match v with VSlice _ l => Some l | _ => None end.
+Definition slice_elems (v : val) : option (Z * list val) :=
+  match v with VSlice a l => Some (a, l) | _ => None end.
 
 (* what enc.AddArray / enc.AddObject / arr.AppendObject receive: a zap-internal wrapper is
    run (its loop is zap's code), a user marshaler is delivered as it is *)
@@ -347,7 +365,7 @@ Definition deliver_marshaler (T : tables) (addto : field -> option (list call)) 
   match v with
   | VWrap w u =>
       match assoc w (t_wrappers T), slice_elems u with
-      | Some l, Some xs => option_map VCalls (run_loop addto l xs)
+      | Some l, Some (a, xs) => option_map VCalls (run_loop addto l a xs)
       | _, _ => None
       end
   | _ => Some v
@@ -411,7 +429,7 @@ Fixpoint addto (T : tables) (fuel : nat) (f : field) : option (list call) :=
 (* depth of nesting of Dict fields inside a value; AddTo needs that much fuel *)
 Fixpoint val_depth (v : val) : nat :=
   match v with
-  | VPtr u | VWrap _ u => S (val_depth u)
+  | VPtr u | VWrap _ u | VRef _ _ u => S (val_depth u)
   | VSlice _ l => S (fold_right (fun x acc => Nat.max (val_depth x) acc) O l)
   | VFld _ _ _ _ x => S (val_depth x)
   | _ => O
